@@ -60,6 +60,35 @@ type Program struct {
 	// EditAfterPublish: after a Publish call returned, the publisher edits the metadata of the message objects it
 	// passed (it may, the call is over); deliveries must still equal the message as it was when Publish was called.
 	EditAfterPublish bool
+	// UUIDs: "" unique UUIDs; "empty" every message has UUID ""; "same" every message has one and the same UUID.
+	// Message.UUID is not an identity for Watermill ("only used for debugging. UUID can be empty"): in the latter
+	// two modes the harness identifies a message by the reserved metadata key IDKey; Delivery.UUID and PubRec.UUID
+	// always hold that identity, the snapshots hold the real UUID.
+	UUIDs string
+}
+
+// IDKey is the metadata key carrying the harness identity of a message when Program.UUIDs is not unique.
+const IDKey = "gcw-id"
+
+func (r *Run) newMessage(id string, payload []byte) *message.Message {
+	switch r.Prog.UUIDs {
+	case "empty":
+		m := message.NewMessage("", payload)
+		m.Metadata.Set(IDKey, id)
+		return m
+	case "same":
+		m := message.NewMessage(r.ID+"/same-uuid", payload)
+		m.Metadata.Set(IDKey, id)
+		return m
+	}
+	return message.NewMessage(id, payload)
+}
+
+func identity(m *message.Message) string {
+	if id, ok := m.Metadata[IDKey]; ok {
+		return id
+	}
+	return m.UUID
 }
 
 // Delivery is one message received by a subscription.
@@ -349,7 +378,7 @@ func (r *Run) consume(s *SubRec, seed uint64) {
 	defer s.consumers.Done()
 	sp := s.Spec
 	for msg := range s.ch {
-		d := &Delivery{Sub: s.ID, UUID: msg.UUID, Msg: msg}
+		d := &Delivery{Sub: s.ID, UUID: identity(msg), Msg: msg}
 		s.mu.Lock()
 		// sample the context first, then the cancel flags (sound direction: a flag set before cancel() is seen here)
 		if err := msg.Context().Err(); err != nil {
@@ -390,7 +419,7 @@ func (r *Run) consume(s *SubRec, seed uint64) {
 			runtime.Gosched()
 		}
 		if sp.NestedTo >= 0 && first {
-			r.publishOne(-1-s.ID, sp.NestedTo, fmt.Sprintf("%s/nested/s%d/%s", r.ID, s.ID, msg.UUID))
+			r.publishOne(-1-s.ID, sp.NestedTo, fmt.Sprintf("%s/nested/s%d/%s", r.ID, s.ID, d.UUID))
 		}
 		if sp.Mutate {
 			msg.Metadata.Set("mutated-by", s.CtxVal)
@@ -402,7 +431,7 @@ func (r *Run) consume(s *SubRec, seed uint64) {
 			}
 			msg.Payload = []byte("replaced-by-" + s.CtxVal)
 		}
-		nack := d.No < nacksFor(seed, s.ID, msg.UUID, sp.NackPct)
+		nack := d.No < nacksFor(seed, s.ID, d.UUID, sp.NackPct)
 		s.Inflight.Add(-1)
 		s.mu.Lock()
 		d.SettleSeq = vlib.Now()
@@ -444,7 +473,7 @@ func (r *Run) publisher(pi int, ps PubSpec, rr *vlib.Rand) {
 		var msgs []*message.Message
 		for b := 0; b < batch && n < ps.N; b++ {
 			uuid := fmt.Sprintf("%s/t%d/p%d/%d", r.ID, ps.Topic, pi, n)
-			m := message.NewMessage(uuid, rr.Payload(r.Prog.PayloadSz))
+			m := r.newMessage(uuid, rr.Payload(r.Prog.PayloadSz))
 			for k := rr.Intn(r.Prog.MetaKeys + 1); k > 0; k-- {
 				m.Metadata.Set(fmt.Sprintf("k%d", rr.Intn(4)), rr.UTF8(6))
 			}
@@ -473,7 +502,7 @@ func (r *Run) publisher(pi int, ps PubSpec, rr *vlib.Rand) {
 }
 
 func (r *Run) publishOne(pub, topic int, uuid string) {
-	m := message.NewMessage(uuid, []byte("n"))
+	m := r.newMessage(uuid, []byte("n"))
 	rec := &PubRec{Pub: pub, Topic: topic, UUID: uuid, Orig: m, OrigSnap: vlib.Snap(m)}
 	r.doPublish(topic, []*PubRec{rec}, []*message.Message{m})
 }
